@@ -652,6 +652,8 @@ class TLSConnection(TLSRecordLayer):
             alpnExt = serverHello.getExtension(ExtensionType.alpn)
             if alpnExt:
                 session.appProto = alpnExt.protocol_names[0]
+            else:
+                session.appProto = None
             return
 
         # If the server selected an SRP ciphersuite, the client finishes
